@@ -1039,6 +1039,10 @@ class SimWorld:
             f.buffer.clear()
         if getattr(proc, "extra_locks", 0) > 0 or (getattr(proc, "holds_pool_lock", None) and proc.holds_pool_lock()):
             lock_leaked = True
+        for c in self.connections:
+            for fr in c.inbox:
+                if fr.owner is proc and 0 < fr.written < fr.total:
+                    torn = True  # died in the middle of Connection.send / SimpleQueue.put
         for q in self.queues:
             if q.rlock_owner is proc:
                 lock_leaked = True  # died inside Queue.get(): the reader lock stays locked
